@@ -102,12 +102,12 @@ def do_replay(prop, modname, idx, ob, outdir):
                     % ob['name'])
         return path, None, ''
     with open(path, 'w') as f:
-        f.write(header + script)
+        f.write(header + script.replace('sys.exit(1', 'print("REPRODUCED"); sys.exit(1'))
     try:
         p = subprocess.run([REPLAY_PY, path], capture_output=True, text=True, timeout=120,
                            env=dict(os.environ, PYTHONPATH=contract.REPO))
         out = (p.stdout + p.stderr)[-2000:]
-        return path, (p.returncode == 1), out
+        return path, (p.returncode == 1 and 'REPRODUCED' in p.stdout), out
     except Exception as e:
         return path, None, repr(e)
 
